@@ -12,7 +12,7 @@ use refimpl as r;
 use refimpl::{Mode, MODES};
 use serde_json::json;
 
-const RULE: &str = "for seeds (fixed, random, and rare seeds found by an instrumented-reference scan whose t = A*s1 + s2 wraps past q or below 0 before reduction) x sk provenance {generated, round-tripped}: get_public_key().into_bytes() must equal the generated pk bytes and the reference pk; the derived key, the generated key and try_from_bytes(pk bytes) must return the same boolean on valid signatures of all four modes (must be true: catches a wrong cached tr), on bit-flipped mutants, on signatures under another key and on wrong-context probes. Hostile accepted private keys (arbitrary tr/t0; plus keys CONSTRUCTED so that t = A*s1+s2 wraps past q / below 0 exactly at coefficient 0, 1, 127, 128, 254 or 255 of the first or last polynomial): derived pk bytes must equal the reference pkEncode(rho, Power2Round(A s1 + s2).t1). Non-trivial = distinct (seed, sk provenance) pairs whose derived key matched in bytes and in every decision.";
+const RULE: &str = "for seeds (fixed, random, and rare seeds found by an instrumented-reference scan whose t = A*s1 + s2 wraps past q or below 0 before reduction) x sk provenance {generated, round-tripped}: get_public_key().into_bytes() must equal the generated pk bytes and the reference pk; the derived key, the generated key and try_from_bytes(pk bytes) must return the same boolean on valid signatures of all four modes (must be true: catches a wrong cached tr), on bit-flipped mutants, on signatures under another key and on wrong-context probes. Hostile accepted private keys (arbitrary tr/t0; plus keys CONSTRUCTED so that t = A*s1+s2 wraps past q / below 0 exactly at coefficient 0, 1, 127, 128, 254 or 255 of the first or last polynomial): derived pk bytes must equal the reference pkEncode(rho, Power2Round(A s1 + s2).t1). Volume pass: for 250 000 (quick) / 8 000 000 (thorough) further seeds per set, get_public_key of the generated private key must serialise to the generated public key (bytes only, distinct seeds counted by enumeration). Non-trivial = distinct (seed, sk provenance) pairs whose derived key matched in bytes and in every decision.";
 
 pub fn run(ctx: &Ctx) -> StageOut {
     let mut acc = Acc::new();
@@ -29,7 +29,7 @@ fn run_set<S: PS>(ctx: &Ctx) -> Acc {
     let p = S::p();
     // seeds whose A*s1 + s2 wraps past q / below 0 before reduction (about 1 in 10^4) come first:
     // the derivation recomputes t and must reduce it exactly as key generation does
-    let rare: Vec<[u8; 32]> = rare_keygen_seeds(ctx, p, ctx.budget(24_000, 400_000) as usize).into_iter().filter(|r| r.tags.iter().any(|t| t.starts_with("t-wrap"))).map(|r| r.xi).collect();
+    let rare: Vec<[u8; 32]> = rare_keygen_seeds(ctx, p, ctx.budget(24_000, 300_000) as usize).into_iter().filter(|r| r.tags.iter().any(|t| t.starts_with("t-wrap"))).map(|r| r.xi).collect();
     let n_jobs = ctx.budget(24, 2400) as usize + rare.len();
     let accs = par_map(n_jobs, |ji| {
         let mut acc = Acc::new();
@@ -178,5 +178,43 @@ fn run_set<S: PS>(ctx: &Ctx) -> Acc {
         let _ = Mode::Pure;
         acc
     });
-    Acc::merge_all(accs)
+    let mut acc = Acc::merge_all(accs);
+    // ---- volume pass: derived == generated, bytes only, no reference in the loop (C04 ties generation to the
+    // reference): an event of probability ~1e-7 per key inside the derivation is within reach of a few
+    // million keys (quick 250 000 per set: a sample; thorough 8 000 000 per set)
+    let n_vol = ctx.opt_u64("vol", ctx.budget(250_000, 8_000_000)) as usize;
+    let chunks = 256usize;
+    let accs = par_map(chunks, |c| {
+        let mut a = Acc::new();
+        let mut g = Prng::derive(ctx.seed, &format!("c11-volume-{}", p.name), c as u64);
+        let mut xi = g.arr32();
+        let mut bad: Option<[u8; 32]> = None;
+        let n = n_vol / chunks;
+        let mut done = 0u64;
+        let res = guarded(|| {
+            for i in 0..n as u64 {
+                xi[..8].copy_from_slice(&(i ^ ((c as u64) << 40)).to_le_bytes());
+                let (pk, sk) = S::keygen_seed(&xi);
+                let d = S::derive(&sk);
+                if S::pk_bytes(&d) != S::pk_bytes(&pk) && bad.is_none() {
+                    bad = Some(xi);
+                }
+                done += 1;
+            }
+        });
+        a.evals(done);
+        a.count("volume_pass_keys", done);
+        a.distinct_enumerated += done;
+        if let Err(pi) = res {
+            panic_violation(&mut a, "C11", "keygen_from_seed/get_public_key", "volume", &pi, json!({"kind":"c11-seed","set":S::SET,"xi":hex(&xi)}));
+        }
+        if let Some(x) = bad {
+            a.violation(&format!("C11|derived-differs-from-generated|{}|volume", p.name), format!("get_public_key() of the key generated from seed {} serialises differently from the generated public key", hex(&x)), json!({"kind":"c11-seed","set":S::SET,"xi":hex(&x)}));
+        }
+        a
+    });
+    for a in accs {
+        acc.merge(a);
+    }
+    acc
 }
